@@ -18,10 +18,13 @@ open Vakt PyVal Vakt.PyPrim Vakt.GenRules
 @[simp] theorem bindM_ok (v : V) (f : V → M) : bindM (.ok v) f = f v := rfl
 @[simp] theorem bindM_error (e : PyErr) (f : V → M) : bindM (.error e) f = .error e := rfl
 @[simp] theorem iteM_ok (v : V) (t e : M) : iteM (.ok v) t e = if truth v then t else e := rfl
-@[simp] theorem notM_ok (v : V) : PyPrim.notM (.ok v) = .ok (.py (.bool (!truth v))) := rfl
-@[simp] theorem notM_error (e : PyErr) : PyPrim.notM (.error e) = .error e := rfl
+@[simp] theorem pyNot_ok (v : V) : pyNot (.ok v) = .ok (.py (.bool (!truth v))) := rfl
+@[simp] theorem notM_error (e : PyErr) : pyNot (.error e) = .error e := rfl
+@[simp] theorem truthy_bool (b : Bool) : PyVal.truthy (.bool b) = b := rfl
+@[simp] theorem iteM_error (e : PyErr) (t f : M) : iteM (.error e) t f = .error e := rfl
 @[simp] theorem ofBool_eq (b : Bool) : ofBool b = .ok (.py (.bool b)) := rfl
 @[simp] theorem truth_bool (b : Bool) : truth (.py (.bool b)) = b := rfl
+@[simp] theorem truth_inq (q : Option Inquiry) : truth (.inq q) = q.isSome := rfl
 @[simp] theorem truth_set (xs : List PyVal) : truth (.set xs) = !xs.isEmpty := rfl
 @[simp] theorem toR_ok (v : V) : toR (.ok v) = .ok (truth v) := rfl
 @[simp] theorem toR_error (e : PyErr) : toR (.error e) = .error e := rfl
@@ -32,7 +35,7 @@ open Vakt PyVal Vakt.PyPrim Vakt.GenRules
 @[simp] theorem callBool_ok (v : V) : callBool (.ok v) = .ok (.py (.bool (truth v))) := rfl
 
 theorem toR_liftR (r : R) : toR (liftR r) = r := by cases r <;> rfl
-theorem toR_notM_liftR (r : R) : toR (PyPrim.notM (liftR r)) = r.map (!·) := by cases r <;> rfl
+theorem toR_notM_liftR (r : R) : toR (pyNot (liftR r)) = r.map (!·) := by cases r <;> rfl
 
 /-! ### comparison rules -/
 
@@ -75,7 +78,7 @@ theorem gen_AllIn (d : List PyVal) (w : PyVal) (q : V) :
   by_cases hl : isList w = true
   · cases w <;> simp [isList] at hl
     rename_i xs
-    simp only [sat_AllIn, isinstanceM, pure_ok, bindM_ok, ofBool_eq, notM_ok, truth_bool, iteM_ok, isList, Bool.not_true,
+    simp only [sat_AllIn, isinstanceM, pure_ok, bindM_ok, ofBool_eq, pyNot_ok, truth_bool, iteM_ok, isList, Bool.not_true,
       Bool.false_eq_true, ↓reduceIte, callSet, methIssubset, Rule.eval]
     cases toSet xs <;> rfl
   · have hl' : isList w = false := by simpa using hl
@@ -87,7 +90,7 @@ theorem gen_AllNotIn (d : List PyVal) (w : PyVal) (q : V) :
   by_cases hl : isList w = true
   · cases w <;> simp [isList] at hl
     rename_i xs
-    simp only [sat_AllNotIn, isinstanceM, pure_ok, bindM_ok, ofBool_eq, notM_ok, truth_bool, iteM_ok, isList, Bool.not_true,
+    simp only [sat_AllNotIn, isinstanceM, pure_ok, bindM_ok, ofBool_eq, pyNot_ok, truth_bool, iteM_ok, isList, Bool.not_true,
       Bool.false_eq_true, ↓reduceIte, callSet, methIssubset, Rule.eval]
     cases toSet xs <;> rfl
   · have hl' : isList w = false := by simpa using hl
@@ -104,7 +107,7 @@ theorem gen_AnyNotIn (d : List PyVal) (w : PyVal) (q : V) :
   by_cases hl : isList w = true
   · cases w <;> simp [isList] at hl
     rename_i xs
-    simp only [sat_AnyNotIn, isinstanceM, pure_ok, bindM_ok, ofBool_eq, notM_ok, truth_bool, iteM_ok, isList, Bool.not_true,
+    simp only [sat_AnyNotIn, isinstanceM, pure_ok, bindM_ok, ofBool_eq, pyNot_ok, truth_bool, iteM_ok, isList, Bool.not_true,
       Bool.false_eq_true, ↓reduceIte, callSet, methDifference, Rule.eval]
     cases toSet xs with
     | error e => rfl
@@ -119,7 +122,7 @@ theorem gen_AnyIn (d : List PyVal) (w : PyVal) (q : V) :
   by_cases hl : isList w = true
   · cases w <;> simp [isList] at hl
     rename_i xs
-    simp only [sat_AnyIn, isinstanceM, pure_ok, bindM_ok, ofBool_eq, notM_ok, truth_bool, iteM_ok, isList, Bool.not_true,
+    simp only [sat_AnyIn, isinstanceM, pure_ok, bindM_ok, ofBool_eq, pyNot_ok, truth_bool, iteM_ok, isList, Bool.not_true,
       Bool.false_eq_true, ↓reduceIte, callSet, methIntersection, Rule.eval]
     cases toSet xs with
     | error e => rfl
@@ -191,11 +194,272 @@ theorem gen_Contains (v : List Char) (ci : Bool) (w : PyVal) (q : V) :
     rw [(not_str w hs' v ci).2.2.2]
     cases w <;> simp_all [sat_Contains, isinstanceM, isStr]
 
+/-! ### composition rules (`self.rules` is the tuple of rule objects, `self.rule` the negated rule) -/
+
+theorem methSatisfied_ok (r : Rule) (w : PyVal) (q : Option Inquiry) :
+    methSatisfied (.ok (.rule r)) (.ok (.py w)) (.ok (.inq q)) = liftR (Rule.eval r w q) := rfl
+
+theorem gen_Not (r : Rule) (w : PyVal) (q : Option Inquiry) :
+    toR (sat_Not (.rule r) (.py w) (.inq q)) = Rule.eval (.not r) w q := by
+  simp only [sat_Not, pure_ok, methSatisfied_ok, toR_notM_liftR, Rule.eval]
+
+/-- the comprehension of `And` over the rule objects is the model's `evalAll` -/
+theorem compM_rules (rs : List Rule) (w : PyVal) (q : Option Inquiry) :
+    compM (rs.map V.rule) (fun x => methSatisfied (pure x) (pure (.py w)) (pure (.inq q))) =
+      (Rule.evalAll rs w q).map (fun bs => bs.map fun b => V.py (.bool b)) := by
+  induction rs with
+  | nil => rfl
+  | cons r rest ih =>
+    simp only [List.map_cons, compM, pure_ok, methSatisfied_ok, Rule.evalAll]
+    cases Rule.eval r w q with
+    | error e => rfl
+    | ok b =>
+      simp only [liftR_ok]
+      rw [show (fun x => methSatisfied (Except.ok x) (Except.ok (V.py w)) (Except.ok (V.inq q))) =
+            (fun x => methSatisfied (pure x) (pure (V.py w)) (pure (V.inq q))) from rfl, ih]
+      cases Rule.evalAll rest w q <;> rfl
+
+theorem all_truth_bools (bs : List Bool) : (bs.map fun b => V.py (.bool b)).all truth = bs.all id := by
+  induction bs with
+  | nil => rfl
+  | cons b rest ih => simp [List.all_cons, ih]
+
+theorem gen_And (rs : List Rule) (w : PyVal) (q : Option Inquiry) :
+    toR (sat_And (.seq (rs.map V.rule)) (.py w) (.inq q)) = Rule.eval (.and rs) w q := by
+  simp only [sat_And, pure_ok, listCompM, bindM_ok, items, Rule.eval]
+  have h := compM_rules rs w q
+  simp only [pure_ok] at h
+  rw [h]
+  cases Rule.evalAll rs w q with
+  | error e => rfl
+  | ok bs =>
+    simp only [Except.map, bindM_ok, callLen, cInt, pyAnd, cmpGt, cmp2, callAll, items, ofBool_eq]
+    cases bs with
+    | nil => rfl
+    | cons b rest =>
+      have hpos : pyGt (.int ((b :: rest).map fun b => V.py (.bool b)).length) (.int 0) = .ok true := by
+        simp only [List.length_map, List.length_cons]
+        simp [pyGt, pyCmp, asNum, numEq, numLt, Except.map]
+        have h1 : ¬ ((rest.length : Int) + 1 = 0) := by omega
+        have h2 : ¬ ((rest.length : Int) + 1 < 0) := by omega
+        simp [h1, h2]
+      simp only [hpos, liftR_ok, bindM_ok, truth_bool, ↓reduceIte, toR_ok, all_truth_bools, pyAnd]
+      simp
+
+/-- the loop of `Or` over the rule objects is the model's `evalAny` -/
+theorem loopM_or (rs : List Rule) (w : PyVal) (q : Option Inquiry) :
+    toR (loopM (rs.map V.rule) (fun x k => iteM (methSatisfied (pure x) (pure (.py w)) (pure (.inq q))) cTrue k) cFalse) =
+      Rule.evalAny rs w q := by
+  induction rs with
+  | nil => rfl
+  | cons r rest ih =>
+    simp only [List.map_cons, loopM, pure_ok, methSatisfied_ok, Rule.evalAny]
+    cases hr : Rule.eval r w q with
+    | error e => rfl
+    | ok b =>
+      cases b
+      · simp only [liftR_ok, iteM_ok, truth_bool, Bool.false_eq_true, ↓reduceIte]
+        simpa only [pure_ok] using ih
+      · rfl
+
+theorem gen_Or (rs : List Rule) (w : PyVal) (q : Option Inquiry) :
+    toR (sat_Or (.seq (rs.map V.rule)) (.py w) (.inq q)) = Rule.eval (.or rs) w q := by
+  simp only [sat_Or, pure_ok, pyFor, bindM_ok, items, Rule.eval]
+  exact loopM_or rs w q
+
+/-! ### rules that look at the inquiry (`inquiry` is the `Inquiry` object handed to `satisfied`, or `None`) -/
+
+theorem gen_SubjectEqual (w : PyVal) (q : Option Inquiry) :
+    toR (sat_SubjectEqual (.py w) (.inq q)) = Rule.eval .subjectEqual w q := by
+  cases q with
+  | none => rfl
+  | some q => cases w <;> simp [sat_SubjectEqual, pyAnd, truth, isinstanceM, isStr, attrM, cmpEq, cmp2, Rule.eval]
+
+theorem gen_ActionEqual (w : PyVal) (q : Option Inquiry) :
+    toR (sat_ActionEqual (.py w) (.inq q)) = Rule.eval .actionEqual w q := by
+  cases q with
+  | none => rfl
+  | some q => cases w <;> simp [sat_ActionEqual, pyAnd, truth, isinstanceM, isStr, attrM, cmpEq, cmp2, Rule.eval]
+
+theorem gen_ResourceIn (w : PyVal) (q : Option Inquiry) :
+    toR (sat_ResourceIn (.py w) (.inq q)) = Rule.eval .resourceIn w q := by
+  cases q with
+  | none => rfl
+  | some q => cases w <;> simp [sat_ResourceIn, pyAnd, truth, isinstanceM, isList, attrM, cmpIn, Rule.eval]
+
+/-- the branch of the model for a rule created with an attribute name -/
+def attrBranch (a w iv : PyVal) : R :=
+  match iv with
+  | .dict kvs =>
+    if !hashable a then .error .raised
+    else (match a with
+          | .str k => (match lookup k kvs with
+                       | some v => .ok (pyEq w v)
+                       | Option.none => .ok false)
+          | _ => .ok false)
+  | _ => .ok false
+
+theorem evalInqMatch_some (f : InqField) (a w : PyVal) (q : Inquiry) :
+    Rule.evalInqMatch f (some a) w (some q) = attrBranch a w (q.field f) := rfl
+
+/-- the body shared by `SubjectMatch` / `ActionMatch` / `ResourceMatch`, for the inquiry field `iv` -/
+theorem match_body (a : PyVal) (ha : a ≠ .none) (w iv : PyVal) :
+    toR (iteM (isNotNoneM (pure (V.py a)))
+      (iteM (pyAnd (isinstanceM (pure (V.py iv)) "dict") (fun _ => cmpIn (pure (V.py a)) (pure (V.py iv))))
+        (bindM (subscriptM (pure (V.py iv)) (pure (V.py a))) fun v => cmpEq (pure (V.py w)) (pure v))
+        cFalse)
+      (cmpEq (pure (V.py w)) (pure (V.py iv)))) = attrBranch a w iv := by
+  unfold attrBranch
+  have hnn : isNotNoneM (pure (V.py a)) = .ok (.py (.bool true)) := by
+    cases a <;> simp_all [isNotNoneM, isNoneM]
+  simp only [hnn, iteM_ok, truth_bool, ↓reduceIte]
+  cases iv <;> try (simp [isinstanceM, isDict, pyAnd]; done)
+  rename_i kvs
+  simp only [isinstanceM, pure_ok, bindM_ok, isDict, ofBool_eq, pyAnd, truth_bool, ↓reduceIte, cmpIn, dictHas]
+  by_cases hh : hashable a = true
+  · simp only [hh, Bool.not_true, Bool.false_eq_true, ↓reduceIte]
+    cases a <;> try (simp [liftR_ok]; done)
+    rename_i k
+    simp only [liftR_ok, iteM_ok, truth_bool, subscriptM, bindM_ok]
+    cases lookup k kvs <;> simp [cmpEq, cmp2]
+  · have hh' : hashable a = false := by simpa using hh
+    simp [hh', raiseM]
+
+theorem gen_match (sat : V → V → V → M) (name : String) (f : InqField)
+    (hsat : ∀ sa w q, sat sa w q = (iteM (pyNot (pure q)) cFalse
+      (bindM (attrM (pure q) name) fun iv =>
+        (iteM (isNotNoneM (pure sa))
+          (iteM (pyAnd (isinstanceM (pure iv) "dict") (fun _ => (cmpIn (pure sa) (pure iv))))
+            (bindM (subscriptM (pure iv) (pure sa)) fun iv' => (cmpEq (pure w) (pure iv')))
+            cFalse)
+          (cmpEq (pure w) (pure iv))))))
+    (hattr : ∀ q : Inquiry, attrM (.ok (.inq (some q))) name = .ok (.py (q.field f)))
+    (attr : Option PyVal) (hn : attr ≠ some .none) (w : PyVal) (q : Option Inquiry) :
+    toR (sat (.py (attr.getD .none)) (.py w) (.inq q)) = Rule.eval (.inqMatch f attr) w q := by
+  rw [hsat]
+  cases q with
+  | none => rfl
+  | some q =>
+    simp only [pure_ok, pyNot_ok, truth_inq, Option.isSome_some, Bool.not_true, iteM_ok, truth_bool, Bool.false_eq_true,
+      ↓reduceIte, hattr, bindM_ok, Rule.eval]
+    cases attr with
+    | none => simp [isNotNoneM, isNoneM, cmpEq, cmp2, Rule.evalInqMatch]
+    | some a =>
+      rw [evalInqMatch_some]
+      have ha : a ≠ .none := fun e => hn (by rw [e])
+      have := match_body a ha w (q.field f)
+      simp only [pure_ok] at this
+      simp only [Option.getD_some]
+      rw [this]
+
+theorem gen_SubjectMatch (attr : Option PyVal) (hn : attr ≠ some .none) (w : PyVal) (q : Option Inquiry) :
+    toR (sat_SubjectMatch (.py (attr.getD .none)) (.py w) (.inq q)) = Rule.eval (.inqMatch .subject attr) w q :=
+  gen_match sat_SubjectMatch "subject" .subject (fun _ _ _ => rfl) (fun _ => rfl) attr hn w q
+
+theorem gen_ActionMatch (attr : Option PyVal) (hn : attr ≠ some .none) (w : PyVal) (q : Option Inquiry) :
+    toR (sat_ActionMatch (.py (attr.getD .none)) (.py w) (.inq q)) = Rule.eval (.inqMatch .action attr) w q :=
+  gen_match sat_ActionMatch "action" .action (fun _ _ _ => rfl) (fun _ => rfl) attr hn w q
+
+theorem gen_ResourceMatch (attr : Option PyVal) (hn : attr ≠ some .none) (w : PyVal) (q : Option Inquiry) :
+    toR (sat_ResourceMatch (.py (attr.getD .none)) (.py w) (.inq q)) = Rule.eval (.inqMatch .resource attr) w q :=
+  gen_match sat_ResourceMatch "resource" .resource (fun _ _ _ => rfl) (fun _ => rfl) attr hn w q
+
+/-! ### `PairsEqual` -/
+
+theorem pyEq_int (a b : Int) : pyEq (.int a) (.int b) = (a == b) := by
+  simp [pyEq, asNum, numEq]
+
+theorem pyEq_str (a b : List Char) : pyEq (.str a) (.str b) = (a == b) := rfl
+
+/-- one iteration of the loop of `PairsEqual` against the model's `pairStep` -/
+theorem pair_iter (p : PyVal) (k : M) :
+    (iteM (cmpNe (callLen (pure (V.py p))) (cInt (2)))
+      cFalse
+      (iteM (pyAnd (pyNot (isinstanceM (subscriptM (pure (V.py p)) (cInt (0))) "str")) (fun _ => (pyNot (isinstanceM (subscriptM (pure (V.py p)) (cInt (1))) "str"))))
+      cFalse
+      (iteM (cmpNe (subscriptM (pure (V.py p)) (cInt (0))) (subscriptM (pure (V.py p)) (cInt (1))))
+      cFalse
+      k))) = (match Rule.pairStep p with | some r => liftR r | Option.none => k) := by
+  cases p with
+  | none => rfl
+  | bool b => rfl
+  | int n => rfl
+  | flt a e => rfl
+  | str cs =>
+    match cs with
+    | [] => rfl
+    | [a] => rfl
+    | [a, b] =>
+      by_cases hab : a = b
+      · subst hab; simp [callLen, cInt, cmpNe, cmp2, pyEq_int, subscriptM, isinstanceM, isStr, pyAnd, pyEq_str, Rule.pairStep]
+      · simp [callLen, cInt, cmpNe, cmp2, pyEq_int, subscriptM, isinstanceM, isStr, pyAnd, pyEq_str, Rule.pairStep, hab]
+    | a :: b :: c :: rest =>
+      have : ¬ ((rest.length : Int) + 1 + 1 + 1 = 2) := by omega
+      simp [callLen, cInt, cmpNe, cmp2, pyEq_int, Rule.pairStep, this]
+  | list xs =>
+    match xs with
+    | [] => rfl
+    | [a] => rfl
+    | [a, b] =>
+      cases ha : isStr a <;> cases hb : isStr b <;> cases hab : pyEq a b <;>
+        simp [callLen, cInt, cmpNe, cmp2, pyEq_int, subscriptM, isinstanceM, pyAnd, Rule.pairStep, ha, hb, hab]
+    | a :: b :: c :: rest =>
+      have : ¬ ((rest.length : Int) + 1 + 1 + 1 = 2) := by omega
+      simp [callLen, cInt, cmpNe, cmp2, pyEq_int, Rule.pairStep, this]
+  | tuple xs =>
+    match xs with
+    | [] => rfl
+    | [a] => rfl
+    | [a, b] =>
+      cases ha : isStr a <;> cases hb : isStr b <;> cases hab : pyEq a b <;>
+        simp [callLen, cInt, cmpNe, cmp2, pyEq_int, subscriptM, isinstanceM, pyAnd, Rule.pairStep, ha, hb, hab]
+    | a :: b :: c :: rest =>
+      have : ¬ ((rest.length : Int) + 1 + 1 + 1 = 2) := by omega
+      simp [callLen, cInt, cmpNe, cmp2, pyEq_int, Rule.pairStep, this]
+  | dict kvs =>
+    match kvs with
+    | [] => rfl
+    | [a] => rfl
+    | [a, b] => rfl
+    | a :: b :: c :: rest =>
+      have : ¬ ((rest.length : Int) + 1 + 1 + 1 = 2) := by omega
+      simp [callLen, cInt, cmpNe, cmp2, pyEq_int, Rule.pairStep, this]
+
+theorem loopM_pairs (ps : List PyVal) :
+    toR (loopM (ps.map V.py) (fun l k =>
+      (iteM (cmpNe (callLen (pure l)) (cInt (2)))
+        cFalse
+        (iteM (pyAnd (pyNot (isinstanceM (subscriptM (pure l) (cInt (0))) "str")) (fun _ => (pyNot (isinstanceM (subscriptM (pure l) (cInt (1))) "str"))))
+        cFalse
+        (iteM (cmpNe (subscriptM (pure l) (cInt (0))) (subscriptM (pure l) (cInt (1))))
+        cFalse
+        k)))) cTrue) = Rule.evalPairs ps := by
+  induction ps with
+  | nil => rfl
+  | cons p rest ih =>
+    simp only [List.map_cons, loopM, Rule.evalPairs]
+    rw [pair_iter]
+    cases Rule.pairStep p with
+    | none => exact ih
+    | some r => exact toR_liftR r
+
+theorem gen_PairsEqual (w : PyVal) (q : V) : toR (sat_PairsEqual (.py w) q) = Rule.eval .pairsEqual w Option.none := by
+  by_cases hl : isList w = true
+  · cases w <;> simp [isList] at hl
+    rename_i ps
+    simp only [sat_PairsEqual, isinstanceM, pure_ok, bindM_ok, ofBool_eq, pyNot_ok, truth_bool, iteM_ok, isList, Bool.not_true,
+      Bool.false_eq_true, ↓reduceIte, pyFor, items, Rule.eval]
+    exact loopM_pairs ps
+  · have hl' : isList w = false := by simpa using hl
+    cases w <;> simp_all [sat_PairsEqual, isinstanceM, isList, Rule.eval]
+
 /-- the rule classes whose bodies are covered by a theorem above (AnyIn: see `gen_AnyIn`) -/
 theorem translated_covers :
     translated.map Prod.fst = ["operator.Eq", "operator.NotEq", "operator.Greater", "operator.Less", "operator.GreaterOrEqual",
       "operator.LessOrEqual", "list.In", "list.NotIn", "list.AllIn", "list.AllNotIn", "list.AnyIn", "list.AnyNotIn",
-      "logic.Truthy", "logic.Falsy", "logic.Any", "logic.Neither", "string.Equal", "string.StartsWith", "string.EndsWith",
-      "string.Contains"] := by decide
+      "logic.Truthy", "logic.Falsy", "logic.And", "logic.Or", "logic.Not", "logic.Any", "logic.Neither", "string.Equal",
+      "string.PairsEqual", "string.StartsWith", "string.EndsWith", "string.Contains", "inquiry.SubjectEqual",
+      "inquiry.ActionEqual", "inquiry.ResourceIn", "inquiry.SubjectMatch", "inquiry.ActionMatch", "inquiry.ResourceMatch"] := by
+  decide
 
 end Vakt.GenEquiv
